@@ -69,7 +69,7 @@ def campaign_c15(seed, tier):
             for ev in list(range(0, 8)) + [8, 9, 11, -1, -2, 255, 100]:
                 lines.append("SSTEP %d %d %d" % (ev, s, now_s - el))
             scs.append(Scenario("c15-step-s%d-e%d" % (s, el), lines))
-    for i in range(8 if tier == "quick" else 200):
+    for i in range(8 if tier == "quick" else 1500):
         lines = ["NEW"]
         for _ in range(200):
             if rng.random() < 0.25:
@@ -84,7 +84,7 @@ def campaign_c15(seed, tier):
 def campaign_c16(seed, tier):
     rng = random.Random(seed)
     scs = []
-    for i in range(24 if tier == "quick" else 600):
+    for i in range(24 if tier == "quick" else 3000):
         nkeys = rng.choice([3, 17, 24, 24])
         keys = [(rng.randrange(1, nkeys + 1), rng.choice([1, 1, 2])) for _ in range(40)]
         lines = ["NEW"]
@@ -282,7 +282,7 @@ def sc_schedule(name, seed, n, long_gaps=False):
 def campaign_c12(seed, tier):
     rng = random.Random(seed)
     scs = []
-    for i in range(64 if tier == "quick" else 2000):
+    for i in range(64 if tier == "quick" else 6000):
         scs.append(sc_schedule("c12-sched-%d" % i, rng.randrange(1 << 30), 250, long_gaps=(i % 3 == 0)))
     # a session that is never acknowledged: periodic Hellos must flow (keeps the check non-vacuous)
     lines = ["NEW"]
